@@ -70,6 +70,10 @@ type graph struct {
 	// "relations", "node", "way") and - when Zero is set - a relation member
 	// with ref 0 (the zero value; it has no history).
 	Odd bool
+	// Ann: the members carry annotations as annotate.Relations writes them into
+	// the elements it was given (version, changeset, location, orientation): an
+	// annotated member is a member like any other.
+	Ann bool
 	// Zero: this internal id (it must not have a history) is handed to the
 	// library as relation id 0.
 	Zero int
@@ -112,6 +116,9 @@ func (g graph) String() string {
 	}
 	if g.Odd {
 		parts = append(parts, "odd-members")
+	}
+	if g.Ann {
+		parts = append(parts, "annotated-members")
 	}
 	if g.Zero != 0 {
 		parts = append(parts, fmt.Sprintf("id%d-is-0", g.Zero))
@@ -232,6 +239,15 @@ func (d *ds) RelationHistory(ctx context.Context, ext osm.RelationID) (osm.Relat
 		}
 		for _, ref := range order {
 			r.Members = append(r.Members, osm.Member{Type: osm.TypeRelation, Ref: g.ext(ref), Role: "sub"})
+		}
+		if g.Ann {
+			for j := range r.Members {
+				m := &r.Members[j]
+				m.Version, m.ChangesetID, m.Lat, m.Lon = 1+(i+j)%3, osm.ChangesetID(100+j), 1.5, 2.5
+				if j%2 == 1 {
+					m.Orientation = 1
+				}
+			}
 		}
 		out = append(out, r)
 	}
@@ -1086,6 +1102,7 @@ func main() {
 						// request lists is relation id 0
 						v.Rev, v.Odd, v.Zero = true, true, 9
 						v.Dup = sub%2 == 0
+						v.Ann = sub%2 == 1
 						if !all(v, "drain-member-lists", classReqs, drainOpt{}) {
 							return
 						}
@@ -1104,6 +1121,7 @@ func main() {
 							}
 						} else {
 							v.Inv = sub%4 + 1
+							v.Ann = true
 							if !all(v, "drain-invisible-versions", classReqs, drainOpt{}) {
 								return
 							}
@@ -1138,6 +1156,7 @@ func main() {
 			gens = append(gens, vexplore.Generator{Name: fmt.Sprintf("drain 4-id graphs %d..%d", lo, hi-1), Gen: func(yield func(*vexplore.Scenario) bool) {
 				for gi := lo; gi < hi; gi++ {
 					g := graph4At(4, maxDeg, gi)
+					g.Ann = gi%2 == 1 // every other graph with annotated members
 					for ri, rq := range reqs4 {
 						if ri == 2 && gi%3 != 0 {
 							continue // the third list on every third graph (quick-tier time budget)
